@@ -158,10 +158,10 @@ class Geometry:
     @property
     def total_thickness(self) -> float:
         """Get Thickness of detector."""
-        if self._total_thickness:
-            return self._total_thickness
-        else:
+        if self._total_thickness is None:
             raise ValueError("'total_thickness' not specified in detector geometry.")
+
+        return self._total_thickness
 
     @total_thickness.setter
     def total_thickness(self, value: float) -> None:
@@ -174,10 +174,10 @@ class Geometry:
     @property
     def pixel_vert_size(self) -> float:
         """Get Vertical dimension of pixel."""
-        if self._pixel_vert_size:
-            return self._pixel_vert_size
-        else:
+        if self._pixel_vert_size is None:
             raise ValueError("'pixel_vert_size' not specified in detector geometry.")
+
+        return self._pixel_vert_size
 
     @pixel_vert_size.setter
     def pixel_vert_size(self, value: float) -> None:
@@ -190,10 +190,10 @@ class Geometry:
     @property
     def pixel_horz_size(self) -> float:
         """Get Horizontal dimension of pixel."""
-        if self._pixel_horz_size:
-            return self._pixel_horz_size
-        else:
+        if self._pixel_horz_size is None:
             raise ValueError("'pixel_horz_size' not specified in detector geometry.")
+
+        return self._pixel_horz_size
 
     @pixel_horz_size.setter
     def pixel_horz_size(self, value: float) -> None:
